@@ -2,6 +2,7 @@
    Request:  X2T <hexxml> {<hexdoc>=<ok>/<events>}
    Response: R 0 ; <tree>  |  R <code> ;  |  NEED <hexdoc> -/
 import Wbxml.Model.TreeOfXml
+import Wbxml.Model.X2W
 import Driver.TreeIO
 import Driver.Parse
 namespace Driver
@@ -51,6 +52,20 @@ def x2tVerb (args : List String) : String :=
       (match treeOfXml Gen.main env (env.length + 2) x with
        | .ok t => s!"R 0 ; {fmtTree t}"
        | .err c => s!"R {c} ; "
+       | .need d => s!"NEED {hxs d}")
+    | _, _ => "BADARG"
+  | _ => "BADARG"
+
+/-- X2W <version> <keepws> <strtbl> <anon> <hexxml> {<hexdoc>=<ok>/<events>}  ->  R 0 ; <hex wbxml> | R <code> ; | NEED <hexdoc> -/
+def x2wVerb (args : List String) : String :=
+  match args with
+  | ver :: keep :: strtbl :: anon :: xml :: envs =>
+    match unhx xml, parseEnv envs with
+    | some x, some env =>
+      let cfg : X2WCfg := { version := ver.toNat!, keepWs := keep != "0", useStrtbl := strtbl != "0", anonymous := anon != "0" }
+      (match xml2wbxml Gen.main cfg env x with
+       | .ok w => s!"R 0 ; {hx w}"
+       | .err e => s!"R {errCode e} ; "
        | .need d => s!"NEED {hxs d}")
     | _, _ => "BADARG"
   | _ => "BADARG"
